@@ -525,7 +525,24 @@ def run_case(doc: dict) -> dict:
                             ordering_cut = True
                 # (nor when a waiter has a defaulted parameter: in the unscoped run it may legitimately have run once on the
                 #  default and never again - C17 - whereas the scoped run is handed the upstream value by the caller)
-                sticky = any(nd.get("wait_for") and any("default" in q for q in nd.get("params", [])) for nd, _d, _p in iter_nodes(g))
+                #  The same holds when the default sits on a node UPSTREAM of the waiter (thorough seed 20261001: n3(o0_0, o2_0=default)
+                #  runs early in the scoped run because the caller supplies o0_0 at once, the waiter n7(o3_0) consumes that early value
+                #  when its signal arrives and - C17 - does not start again when o3_0 is refreshed).
+                def _has_defaulted_ancestor(nd0: dict) -> bool:
+                    by_out = {o: n_ for n_ in g["nodes"] for o in _node_io(n_)[1]}
+                    seen, work = set(), [nd0]
+                    while work:
+                        n_ = work.pop()
+                        if n_["name"] in seen:
+                            continue
+                        seen.add(n_["name"])
+                        if any("default" in q for q in n_.get("params", [])):
+                            return True
+                        work += [by_out[q["name"]] for q in n_.get("params", []) if q["name"] in by_out]
+                    return False
+
+                sticky = any(nd.get("wait_for") and any("default" in q for q in nd.get("params", [])) for nd, _d, _p in iter_nodes(g)) or any(
+                    nd.get("wait_for") and _has_defaulted_ancestor(nd) for nd in g["nodes"])
                 inner_sel = any(nd["kind"] == "graph" and nd["graph"].get("select") for nd, _d, _p in iter_nodes(g))  # an inner select also narrows what a wrapper CONSUMES: the spec-level scope model over-approximates the scope then
                 if not has_gates and out["status"] == "completed" and not faults and not ordering_cut and not sticky and not (inner_sel and act is not None):
                     diff = {k: (v, ref["values"][k]) for k, v in vals.items() if k in ref["values"] and canon(v) != canon(ref["values"][k])}
